@@ -280,8 +280,9 @@ def check_sequence(ctx, case, seq, expect, tag):
             ok = False
     cp = chain_problems(seq)
     if cp:
-        ctx.fail('C19/%s-chain' % tag, case, {'what': cp})
-        ok = False
+        # an internal invariant (theorem C19_ext_inv_histories), not part of the property text: reported as a
+        # disagreement with the model, not as a violation of the property
+        ctx.mismatch('chain-invariant', case, {'what': cp, 'where': tag})
     if not ok or not one_op(case):
         return ok
     prog = [(labs, adc) for labs, _, adc in expect]
@@ -295,6 +296,9 @@ def check_sequence(ctx, case, seq, expect, tag):
                 return False
             got, arr, _ = canon_result(r)
             want, warr = oracle_eval(prog, init, mode)
+            if not warr and mode != 'none' and got and arr is True and all(v == [] for v in got.values()) \
+                    and set(got) == set(want):
+                continue     # no block qualified: empty evolutions are as acceptable as the final scalars
             if got != want or (got and arr != warr):
                 ctx.fail('C19/%s-evaluate-%s' % (tag, mode), case,
                          {'mode': mode, 'init': init, 'got': got, 'expected': want, 'array': arr, 'expected_array': warr})
